@@ -1,24 +1,37 @@
 """C12 - gradients are the derivatives of the reported densities.
 
-Space: every (callable density m, base parameter element p[i]) pair of every model graph in a
-declared finite family, at three generic interior points, with and without rescaling forced
-on for the tree likelihoods.  The family is
+Space: every (callable density m, base parameter element p[i]) pair of every model graph of a
+declared finite family, at three generic interior points (the values in the specification and
+two displaced points) and at the "neutral" points (one parameter at a time at its natural
+default: 1 for a positive quantity, 1/2 for a probability, the uniform simplex, 0 for an
+unconstrained value - where value-based short cuts and symmetric special cases live), with and
+without rescaling forced on for the tree likelihoods.  The family is
 
   * the committed CLI-generated graphs (mc/builders/graphs/*.json),
-  * hand-written graphs for every labelled rooted topology on 3 and 4 (thorough: 5) tips with
-    pairwise distinct sampling dates x {ratio, shift} node-height parameterisation carrying all
-    tree-dependent densities (node-height Jacobian, every coalescent model, BDSK, time-aware
-    GMRF, CTMC scale, tree likelihoods with strict / per-branch clocks, partials / tip states),
-  * every unrooted topology on 4 (thorough: 5) tips (likelihood, gamma-Dirichlet prior),
-  * substitution model x site model likelihoods on a fixed tree, an underflowing likelihood
-    (rescaling switches itself on), every shipped transform behind a TransformedParameter,
-    GMRF variants, scale mixtures, Bayesian bridge, multivariate normal, joint models.
+  * for every labelled rooted topology on 3 and 4 (thorough: 5) tips with pairwise distinct
+    sampling dates x {ratio, shift} node-height parameterisation: one graph with all tree priors
+    (node-height Jacobian, constant / exponential / skyride / skygrid / soft skygrid /
+    piecewise-linear / integrated coalescent, three BDSK configurations, time-aware GMRF with and
+    without rescaling, integrated GMRF, a joint) and one with the tree likelihoods (strict clock
+    + HKY + Weibull+I+mu with partials; per-branch rescaled-rate clock + JC69 with tip states;
+    CTMC scale, horseshoe prior on log rate differences, Poisson likelihood, joints),
+  * every unrooted topology on 4 (thorough: 5) tips (GTR+W4+I likelihood with ambiguities, HKY
+    with tip states, gamma-Dirichlet prior, joint),
+  * substitution model x site model x tip representation likelihoods on a fixed tree, including
+    the symmetric interior points (equal frequencies, kappa = 1, equal exchangeabilities),
+  * a 540-taxon likelihood whose site likelihoods underflow (rescaling switches itself on),
+  * every shipped transform behind a TransformedParameter (its log-Jacobian and a prior on the
+    transformed value), GMRF variants, scale mixtures, Bayesian bridge, multivariate normal,
+    torchtree's own distributions, view / concatenated parameters, joint models.
 
 Oracle: central finite differences of the value of m().sum() (two step sizes, Richardson
 combined); EVERY function evaluation is a graph freshly built from its JSON specification
 holding the perturbed base values, so no cached state of the implementation is relied on.
 The autograd gradient is read from parameter.grad after m().sum().backward() on a fresh graph
-(one graph per density) whose base parameters were created with requires_grad."""
+(one graph per density) whose base parameters were created with requires_grad.  A pair is judged
+only where the value function is smooth at the point: the two step sizes must agree and the
+one-sided slopes must behave like those of a differentiable function (a kink or cusp exactly
+at the point, e.g. |x| at 0, is not a point where a derivative exists)."""
 import copy
 import itertools
 import math
@@ -171,7 +184,7 @@ def dependents(spec, vals, rescale, names, base, p, rel):
             or not (moved[n] == base[n])]
 
 
-def fd_of(spec, vals, rescale, names, p, i, rel=False, allnames=None):
+def fd_of(spec, vals, rescale, names, p, i, rel=False, allnames=None, base=None):
     """Richardson-combined central difference of every density w.r.t. element i of parameter p.
     returns name -> (status, value, d1, d2); status ok | unreliable | unavailable.  Densities in
     allnames but not in names do not depend on p: their derivative is 0 without evaluation."""
@@ -197,6 +210,13 @@ def fd_of(spec, vals, rescale, names, p, i, rel=False, allnames=None):
         r = (H1 / H2) ** 2
         d = (r * d2 - d1) / (r - 1.0)
         ok = abs(d1 - d2) <= GUARD * max(1.0, abs(d))
+        if ok and base is not None:
+            # one-sided slopes: forward minus backward difference is h f'' for a smooth function
+            # (so s(h1) = (h1/h2) s(h2)); a kink or cusp exactly at x breaks that proportionality
+            f0 = base[name]
+            s1 = (vs[0] - 2.0 * f0 + vs[1]) / h1
+            s2 = (vs[2] - 2.0 * f0 + vs[3]) / h2
+            ok = abs(s1 - (H1 / H2) * s2) <= GUARD * max(1.0, abs(d))
         out[name] = ("ok" if ok else "unreliable", d, d1, d2)
     return out
 
@@ -238,7 +258,8 @@ def offsets(n, j, seed, salt, pid):
     h = sum(ord(c) * (k + 1) for k, c in enumerate(pid)) % 97
     rng = np.random.default_rng(1000003 * seed + 7919 * salt + 101 * j + h)
     base = np.array([(((5 * i + 3 * j + h + 4 * salt) % 11) - 5) * 0.04 for i in range(n)])
-    return base + 0.03 * rng.uniform(-1, 1, size=n)
+    amp = 1.0 + 0.5 * min(salt // 20, 6)  # later attempts move further
+    return amp * (base + 0.03 * rng.uniform(-1, 1, size=n))
 
 
 def displaced(x0, kind, j, seed, salt, pid):
@@ -328,7 +349,7 @@ def point(spec, kinds, j, seed, fixture=False):
         if g >= MIN_GAP:
             return x0, g
         j = 3  # the initial point sits on a tie between event times: a third displaced point instead
-    for salt in range(40):
+    for salt in range(400):
         vals = {k: displaced(x, kind_of(k, x, kinds), j, seed, salt, k) for k, x in x0.items()}
         try:
             dic = tt.load(spec_with(spec, vals))
@@ -736,10 +757,16 @@ def graph(gid, seed=0):
     a = rest.split(":")
     if fam == "fixture":
         return gs.load_fixture(rest), {}, {"fixture": True}
-    if fam == "tree":
-        return tree_graph(int(a[0]), int(a[1]), int(a[2]), a[3])
-    if fam == "treelike":
-        return treelike_graph(int(a[0]), int(a[1]), int(a[2]), a[3])
+    if fam in ("tree", "treelike"):
+        f = tree_graph if fam == "tree" else treelike_graph
+        spec, kinds, opts = f(int(a[0]), int(a[1]), int(a[2]), a[3])
+        if len(a) > 4 and a[4] == "nn":
+            opts = dict(opts, neutral=False)  # the neutral points of these densities are taken on smaller trees
+        if len(a) > 4 and a[4] == "tp":
+            # the larger trees: only the node-height parameters are differentiated (what depends on the
+            # topology is how a density depends on them), no neutral points
+            opts = dict(opts, neutral=False, elements="tree.")
+        return spec, kinds, opts
     if fam == "unrooted":
         return unrooted_graph(int(a[0]), int(a[1]))
     if fam == "subst":
@@ -764,9 +791,9 @@ def graph_ids(tier):
         for ti in range(ntop):
             for kind in ("ratio", "shift"):
                 for di in ((0, 1) if (thorough and n < 5) or n == 3 else ((ti + (kind == "shift")) % 2,)):
-                    out.append(f"tree:{n}:{ti}:{di}:{kind}")
-                    if n < 5:
-                        out.append(f"treelike:{n}:{ti}:{di}:{kind}")
+                    nn = ":tp" if n >= 5 else ":nn" if n >= 4 else ""
+                    out.append(f"tree:{n}:{ti}:{di}:{kind}{nn}")
+                    out.append(f"treelike:{n}:{ti}:{di}:{kind}{nn}")
     for n in ((4, 5) if thorough else (4,)):
         for ti in range(en.n_rooted(n - 1)):
             out.append(f"unrooted:{n}:{ti}")
@@ -875,7 +902,8 @@ def plan(gid, seed):
     spec, kinds, opts, v0, _ = prepared(gid, seed, 0)
     dic = tt.load(spec)
     base = [p for p in gs.base_parameters(dic) if kinds.get(p) != "fixed"]
-    elems = [(p, i) for p in base for i in range(dic[p].tensor.numel())]
+    elems = [(p, i) for p in base for i in range(dic[p].tensor.numel())
+             if p.startswith(opts.get("elements", ""))]
     rescales = (False, True) if has_likelihood(dic) else (False,)
     units = []
     for j in opts.get("points", (0, 1, 2)):
@@ -884,7 +912,7 @@ def plan(gid, seed):
         for k in range(0, len(elems), CHUNK):
             units.append({"kind": "fd", "graph": gid, "point": j, "rescale": False, "seed": seed,
                           "elems": elems[k:k + CHUNK]})
-    if 0 in opts.get("points", (0, 1, 2)):
+    if 0 in opts.get("points", (0, 1, 2)) and opts.get("neutral", True):
         # neutral points: one parameter at a time at its natural default; only that parameter's elements
         for p in base:
             nv = neutral_value(v0[p], kind_of(p, v0[p], kinds))
@@ -967,7 +995,7 @@ def fd_unit(u):
         if p not in deps:
             deps[p] = dependents(spec, vals, rs, names, base, p, rel)
             builds += 1
-        out[(p, i)] = fd_of(spec, vals, rs, deps[p], p, i, rel, allnames=names)
+        out[(p, i)] = fd_of(spec, vals, rs, deps[p], p, i, rel, allnames=names, base=base)
         builds += 4 if deps[p] else 0
     return {"kind": "fd", "key": (gid, j, rs), "fd": out, "builds": builds}
 
@@ -1024,6 +1052,7 @@ def judge_all(ads, fds, seed):
     viol = []
     tot = {"evals": 0, "nontrivial": 0, "unavailable": 0, "maxerr": 0.0, "unreliable": [], "skipped": {},
            "mingap": math.inf, "self_rescaled": 0, "builds": 0, "per_family": {}, "densities": {}, "worst": []}
+    carry = {}  # failures without rescaling, for the root-cause label of the rescaled evaluations
     for key in sorted(fds, key=lambda k: keyorder((k, None))):
         gid, j, rs = key
         a = ads[key]
@@ -1034,7 +1063,7 @@ def judge_all(ads, fds, seed):
         tot["self_rescaled"] += len(a["self_rescaled"])
         for n in a["skipped"]:
             tot["skipped"].setdefault(a["info"][n]["class"], str(a["base"][n])[:140])
-        failing = {}
+        failing = dict(carry.get((gid, j), {})) if rs else {}
         local = []
         for (p, i), byname in sorted(fds[key].items()):
             for n, (st, fd, d1, d2) in sorted(byname.items()):
@@ -1076,13 +1105,16 @@ def judge_all(ads, fds, seed):
                 if bad:
                     failing[(p, i, n)] = bad[0]
                     local.append((n, p, i, bad))
+        if not rs:
+            carry[(gid, j)] = failing
         for n, p, i, bad in local:
             info = a["info"][n]
             roots = sorted({a["info"][m]["class"] for m in info["members"]
                             if (p, i, m) in failing
                             and a["info"][m]["class"] != "JointDistributionModel"})
             root = "+".join(roots) if roots else info["class"]
-            sig = {"check": bad[0], "density": info["class"], "root_cause": root, "family": fam, "rescale": rs}
+            sig = {"check": bad[0], "density": info["class"], "root_cause": root, "family": fam, "rescale": rs,
+                   "point_kind": "neutral" if isinstance(j, str) else "generic"}
             if info["has_like"]:
                 sig["subst_model"] = info["subst"]
                 sig["degenerate_spectrum"] = info["degenerate"]
@@ -1180,24 +1212,35 @@ def run(run):
 
 ASSUMPTIONS = [
     "float64; the numerical derivative is a Richardson combination of central differences with relative steps "
-    "1e-4 and 5e-5 (relative to |x| for positive / simplex parameters, to max(1,|x|) otherwise); every function "
+    "1e-3 and 5e-4 (relative to |x| for positive / simplex parameters, to max(1,|x|) otherwise); every function "
     "value comes from a graph freshly built from JSON, so the oracle shares no state with the graph that is "
     "differentiated",
     "tolerance |g_ad - g_fd| <= 1e-5 * max(1, |g_fd|) (DESIGN figure); the largest discrepancy observed on the "
-    "unchanged code is recorded in coverage (head-room >= 30x)",
-    "a pair whose two step sizes disagree by more than 1e-6 relative is not judged (counted in "
-    "fd_unreliable_pairs); a pair whose perturbed value cannot be evaluated is not judged (fd_unavailable_pairs)",
+    "unchanged code is recorded in coverage (about 1e-7: head-room 100x; it comes from the MG94 frequencies)",
+    "a pair is judged only where the value is smooth: the two step sizes must agree to 1e-4 relative and the "
+    "forward-minus-backward slopes of the two steps must be in the ratio of the steps (otherwise there is a kink or "
+    "cusp at or next to the point); such pairs are counted in fd_unreliable_pairs; a pair whose perturbed value "
+    "cannot be evaluated is counted in fd_unavailable_pairs",
     "evaluation points: the values in the specification plus two displaced generic points (offsets moved by "
     "VERIF_SEED); points are re-drawn until no two event times (node heights, sampling times, grid points, skyline "
-    "change times) are closer than 0.02; an initial point that sits on such a tie is replaced by a third displaced "
+    "change times) are closer than 0.05; an initial point that sits on such a tie is replaced by a third displaced "
     "point; ties between two sampling times are not used (all dates distinct in the hand-written graphs)",
-    "the symmetric interior points (equal frequencies, kappa = 1, equal exchangeabilities) are part of the space: "
-    "they are interior points of the domain and the CLI starts every run there",
+    "neutral points: point 0 with ONE parameter at its natural default (all its elements: 1 / 0.5 / uniform / 0), "
+    "only that parameter's elements and the densities that depend on it; a neutral point that cannot be built or "
+    "creates a tie between event times is not used (neutral_points_not_usable); the neutral points of the tree "
+    "graphs are taken on the 3-taxon topologies only (they are properties of parameter values, not of topologies)",
+    "the symmetric interior points (equal frequencies, kappa = 1, equal exchangeabilities, equal population sizes) "
+    "are part of the space: they are interior points of the domain and the CLI starts every run there",
     "densities that cannot be evaluated at all on a fresh graph are skipped and listed "
-    "(densities_not_evaluable_on_a_fresh_graph): they are findings of C08/C09, not of this property",
+    "(densities_not_evaluable_on_a_fresh_graph): they are findings of C07/C08/C09, not of this property",
     "parameters of a simplex are perturbed one coordinate at a time (the formula of the density is differentiated "
     "as written, like autograd does)",
     "unconstrained values of a CLI fixture beyond +-100 (a saturated transform, e.g. s = sigmoid(-708)) are "
     "numerically on the boundary of the domain and are replaced by -+1",
+    "a parameter is taken to influence a density when moving all its elements by generic amounts changes the value "
+    "(one fresh graph); for the other (density, parameter) pairs the derivative is 0 without further evaluations and "
+    "the autograd gradient must be absent or 0",
     "stochastic variational objectives (ELBO, ...) and neural modules are not densities in the sense of the property",
+    "on the n = 5 topologies (thorough) only the node-height parameters are differentiated (all densities); the "
+    "other parameters of the same densities are differentiated on every 3- and 4-taxon topology",
 ]
